@@ -14,7 +14,7 @@ def run(tier, seed):
     rep.assumptions = ["binary universes of DESIGN §4 (fixed and variable length keys, branch on a byte boundary)", "oracle mcx/ref/bintrie.py"]
     plans = [dict(universe="B8", values=("a", "bb"), forms=("m", "i")), dict(universe="BLK", values=("a", "bb")), dict(universe="BC", values=("a",)),
              dict(universe="BXL", values=("a", "bb")), dict(universe="B6", values=("br65", "kv34", "blank")), dict(universe="BRC", values=("a",)),
-             dict(universe="B4", values=("a", "bb"), chain=2)]
+             dict(universe="B4", values=("a", "bb"), chain=2), dict(universe="B4", values=("a",), chain=3)]
     if tier == "thorough":
         plans = plans + [dict(universe="B10", values=("a", "bb")), dict(universe="B8", values=("a", "bb", "c33"), forms=("m", "i")),
                  dict(universe="B4L", values=("a", "bb", "c33"))]
